@@ -534,6 +534,8 @@ def _value_rows(value, dt, nrows, subshape):
 
 
 def _setitem(a, index, value):
+    if index is Ellipsis and a.ndim >= 1:
+        index = slice(None)
     rows = a._rows()
     if isinstance(index, OpaqueIndex):
         if not index.valid:
